@@ -237,6 +237,10 @@ class Recorder(object):
         self.args = alphabet(cfg.get('nx', 4), self.safe, unkey, self.variant)
         self.funcs = {'plain': stubs.FUNCS, 'builtin': stubs.UFUNCS, 'falsykey': stubs.ZFUNCS, 'big': stubs.BFUNCS, 'eqtypes': stubs.EFUNCS, 'mixed': stubs.MFUNCS, 'long': stubs.LFUNCS, 'ignore_w': stubs.WFUNCS, 'frac': stubs.QFUNCS, 'ignore_y': stubs.GFUNCS, 'ignore_1': stubs.GFUNCS, 'tol0': stubs.HFUNCS,
                       'tol1': stubs.TFUNCS}[self.variant]
+        if cfg.get('stacked'):
+            # what is decorated is itself a klepto-decorated function (one that keeps nothing: no_cache without an archive
+            # evaluates the stub on every call), i.e. two klepto decorators are stacked; instance i is the OUTER one
+            self.funcs = [self.klepto.no_cache()(fn) for fn in self.funcs]
         if cfg.get('aspartial'):
             # the decorated callable is a functools.partial of the stub that presets nothing: same calls, same values
             import functools
